@@ -734,6 +734,10 @@ func isYangChar(r rune) bool {
 
 func (y *ystring) Validate(ctx ValidateCtx, path []string, s string) error {
 	var err error
+	if !utf8.ValidString(s) {
+		// (ranging over the string would show every stray byte as U+FFFD)
+		return newInvalidValueError(path, "Must be a string of characters (UTF-8)")
+	}
 	for _, r := range s {
 		if !isYangChar(r) {
 			return newInvalidValueError(path,
